@@ -62,6 +62,9 @@ def patch_files(patch):
     return set(re.findall(r"^\+\+\+ b/(\S+)", open(patch).read(), flags=re.M))
 
 
+MAX_BENIGN = 12      # per property and run (the whole corpus is evaluated with tools/eval_patches.py /verif/benign)
+
+
 def self_test(pid, files=None):
     """Apply each stored breaking change (must be reported) and each stored behaviour-preserving refactoring that touches a
     file this check analyses (must stay quiet) to a scratch copy of the current tree and run the quick rules on it."""
@@ -70,10 +73,12 @@ def self_test(pid, files=None):
     for d in (sorted(os.listdir(SEEDED)) if os.path.isdir(SEEDED) else []):
         if d.startswith(pid + "-") and os.path.exists(os.path.join(SEEDED, d, "patch.diff")):
             jobs.append((d, os.path.join(SEEDED, d, "patch.diff"), True))
+    nb = 0
     for d in (sorted(os.listdir(BENIGN)) if os.path.isdir(BENIGN) else []):
         pth = os.path.join(BENIGN, d, "patch.diff")
-        if os.path.exists(pth) and files and (patch_files(pth) & files):
+        if os.path.exists(pth) and files and (patch_files(pth) & files) and nb < MAX_BENIGN:
             jobs.append(("benign/" + d, pth, False))
+            nb += 1
     if not jobs:
         return out
     tmp = tempfile.mkdtemp(prefix="fbr-selftest-")
